@@ -1,5 +1,5 @@
 """Property -> rules registry.  Rules are added here as they are built; a property without rules is not claimed."""
-from .rules import determinism, panics, wiring, traversal, annot, shape, hygiene, enums, shrinking, fresh, sharing, codegen, abi, pmoves, labels, runtime, typing as typing_rules, formatting, linear
+from .rules import determinism, panics, wiring, traversal, annot, shape, hygiene, enums, shrinking, fresh, sharing, codegen, abi, pmoves, labels, runtime, typing as typing_rules, formatting, linear, memory, termination
 
 
 def _thorough_only(rule):
@@ -83,7 +83,7 @@ PROPS = {
     },
     "C06": {
         "rules": [codegen.rule_isel("x86_64"), enums.rule_enum_dispatch, traversal.rule_trav(["axcut2backend::statements::code_statement::CodeStatement"]),
-                  abi.rule_abi_cached("x86_64"), pmoves.rule_cycle],
+                  abi.rule_abi_cached("x86_64"), pmoves.rule_cycle, memory.rule_mem("x86_64")],
         "text": "Instruction-selection templates of the x86-64 backend validated for every reachable operand placement (environment "
                 "positions straddling the register/spill boundary): each emission function (add, sub, mul, div, rem, mov, "
                 "load_immediate with boundary literals of every magnitude, the twelve conditional jumps) is folded from its MIR into "
@@ -97,7 +97,7 @@ PROPS = {
     },
     "C07": {
         "rules": [codegen.rule_isel("aarch64"), enums.rule_enum_dispatch, traversal.rule_trav(["axcut2backend::statements::code_statement::CodeStatement"]),
-                  abi.rule_abi_cached("aarch64"), pmoves.rule_cycle],
+                  abi.rule_abi_cached("aarch64"), pmoves.rule_cycle, memory.rule_mem("aarch64")],
         "text": "Instruction-selection templates of the AArch64 backend validated for every reachable operand placement (environment "
                 "positions straddling the register/spill boundary): each emission function (add, sub, mul, div, rem, mov, "
                 "load_immediate with boundary literals of every magnitude, the twelve conditional jumps) is folded from its MIR into "
@@ -111,7 +111,7 @@ PROPS = {
     },
     "C08": {
         "rules": [codegen.rule_isel("rv64"), enums.rule_enum_dispatch, traversal.rule_trav(["axcut2backend::statements::code_statement::CodeStatement"]),
-                  pmoves.rule_cycle],
+                  pmoves.rule_cycle, memory.rule_mem("rv64")],
         "text": "Instruction-selection templates of the RISC-V backend validated for every reachable operand placement (environment "
                 "positions straddling the register/spill boundary): each emission function (add, sub, mul, div, rem, mov, "
                 "load_immediate with boundary literals of every magnitude, the twelve conditional jumps) is folded from its MIR into "
@@ -192,11 +192,13 @@ PROPS = {
         "assumptions": ["behavioural equivalence itself is the conjunction of C02-C06, C13, C14, C20 and of semantic facts not decided statically"],
     },
     "C18": {
-        "rules": [panics.rule_panic(("A", "B")), panics.rule_gact],
+        "rules": [panics.rule_panic(("A", "B")), panics.rule_gact, termination.rule_descent],
         "text": "Panic-site closure: every panic-capable construct reachable in the resolved whole-workspace call graph from the "
                 "parser, the type checker and every later stage entry point is enumerated and must be an audited row; zone A "
                 "(everything reachable from parse_module/parse_term/Program::check, including all 399 grammar actions) accepts "
-                "only locally discharged rows. Decides 'never panics on user input' for all inputs at once; termination is not decided.",
+                "only locally discharged rows. Decides 'never panics on user input' for all inputs at once. Termination: R-DESCENT decides that "
+                "every recursion cycle of the pipeline's call graph is a structural descent (each recursive call receives a part of its "
+                "caller's input, or an audited renaming of one), so the recursion depth is bounded by the program; loops are not examined.",
         "assumptions": ["lalrpop's generated state machine and third-party crates do not panic",
                         "LOOKUP rows: checked programs are well-scoped (name lookups succeed)",
                         "stack overflow and allocation failure are outside the property ('within stack limits')"],
